@@ -19,6 +19,8 @@ src: conf.c
 enforce: builtin_appname
 backend: sat
 timeout: 200
+native: c11_replay
+native_includes: conf.c
 */
 /*@unit
 name: builtin_version
@@ -27,6 +29,8 @@ src: conf.c
 enforce: builtin_version
 backend: sat
 timeout: 200
+native: c11_replay
+native_includes: conf.c
 */
 /*@unit
 name: builtin_dirscan
@@ -39,6 +43,8 @@ bound: list buffer CONFIG_BUFF scaled from 20480 to 64 bytes (the room arithmeti
 loopcontracts: yes
 loops: 1
 timeout: 600
+native: c11_replay
+native_includes: conf.c
 */
 /*@unit
 name: builtin_exec
@@ -47,6 +53,8 @@ src: conf.c
 enforce: builtin_exec
 backend: sat
 timeout: 600
+native: c11_replay
+native_includes: conf.c
 */
 #include "vprelude.h"
 #ifdef U_DIRSCAN
